@@ -168,6 +168,14 @@ def handle (ws : List String) : String :=
       | .ident n => "id " ++ hex n
       | .lit t => "str " ++ hex t
     | none => "bad-op"
+  | ["xlabel", s] =>
+    match unhex s with
+    | some b =>
+      if b.any (fun x => decide (0x80 ≤ x)) then "nonascii" else
+      match exportLabel asciiE noU noU b with
+      | .ident n => "id " ++ hex n
+      | .lit t => "str " ++ hex t
+    | none => "bad-op"
   | ["plabel", "id", s] =>
     match unhex s with
     | some b => featureStr (parseLabel id (.ident b))
